@@ -698,8 +698,8 @@ class DictConverter(t.Generic[FromDataK, FromDataV], Converter[t.Mapping[FromDat
 
         nodes: _ProductErrorChildren = {}
         for (k, v) in val.items():
-            # children are named by the key itself where possible (1 and '1' are different keys)
-            name = k if type(k) in (str, int) else str(k)
+            # children are named by the key itself (1 and '1', None and 'None' are different keys)
+            name = k
             if (node := self.k_conv.collect_errors(k)) is not None:
                 nodes[name] = node  # TODO split bad fields from bad values
             if (node := self.v_conv.collect_errors(v)) is not None:
